@@ -288,6 +288,29 @@ def roundtrip_values(tier, r, strs):
     return vals
 
 
+# repr of a container after an EARLIER repr of the same object failed part way (an item whose __repr__ raises or returns a non-string, removed afterwards): nothing of the failed attempt may stay behind, repr / str / eval round trip as for a fresh value
+REPR_HISTORY_PROG = 'class Bad:\n    def __repr__(self):\n        raise ValueError("no repr")\nclass Odd:\n    def __repr__(self):\n        return 5\ndef attempt(label, f):\n    try:\n        f()\n        print(label, "no error")\n    except ValueError:\n        print(label, "ValueError")\n    except TypeError:\n        print(label, "TypeError")\ndef show(label, x):\n    r = repr(x)\n    print(label, r, str(x) == r, eval(r) == x)\nL = ["zé\\U0001f600\\x00", b"\\x00\\xff", (1, 2.5), [3, "q\'"], 7, -0.0]\nT = (1, "a", [2])\nD = {"k": [1, 2]}\nfor bad in (Bad(), Odd()):\n    L.append(bad)\n    attempt("list", lambda: repr(L))\n    attempt("list-str", lambda: str(L))\n    attempt("nested", lambda: repr([1, (L,)]))\n    del L[-1]\n    show("list-after", L)\n    show("nested-after", [L, (L, 1), {"a": L}])\n    inner = T[2]\n    inner.append(bad)\n    attempt("tuple", lambda: repr(T))\n    del inner[-1]\n    show("tuple-after", T)\n    D["bad"] = bad\n    attempt("dict", lambda: repr(D))\n    del D["bad"]\n    show("dict-after", D)\n    show("all-after", [L, T, D, (L, T, D)])\n'
+
+
+def directed_program_check(rep, nontriv):
+    case = {'id': 'repr-after-failed-repr', 'src': REPR_HISTORY_PROG}
+    e = common.oracle_exec([case]).get(case['id']) or {}
+    g = (run_vrun('exec', [case], timeout_case=30)[0]).get(case['id'])
+    if g is None or e.get('oracle_failed') or e.get('exc') or e.get('cerr'):
+        rep.inconc('repr-after-failed-repr program: no result / oracle failed')
+        return 0
+    el, gl = (e.get('out') or '').split('\n')[:-1], (g.get('out') or '').split('\n')
+    for k, x in enumerate(el):
+        rep.evaluations += 1
+        nontriv.add(('repr-after-failed-repr', k))
+        y = gl[k] if k < len(gl) else None
+        if x != y:
+            rep.violation('C14|repr-after-failed-repr|%s|%s' % (x.split(' ')[0], 'panic' if g.get('panic') or g.get('crash') else ('escaped:%s' % g.get('exc') if y is None and g.get('exc') else 'wrong-result')),
+                          {'case': case, 'expected': x, 'got': y, 'exc': g.get('exc'), 'excmsg': g.get('excmsg'), 'panic': g.get('panic')})
+            break
+    return len(el)
+
+
 def run(tier, rep):
     import gc
     gc.disable()
@@ -500,6 +523,7 @@ def run(tier, rep):
             else:
                 dev = 'wrong-value'
             rep.violation(sig(op, args, dev, 'src'), witness)
+    directed_program_check(rep, nontriv)
     rep.nontrivial = nontriv
     rep.samples = samples + ([{'source_program': progs[0]['src'][len(SHOWS):]}] if progs else [])
     rep.extra.update({'subject_strings': len(subjects), 'string_op_instances': nops, 'roundtrip_values': len(rt), 'roundtrips_equal': rt_ok, 'source_programs': len(progs), 'oracle_disagreement_src': src_dis,
